@@ -568,6 +568,75 @@ pub fn transport_layer(base: &[u8], t: &TransportSlice) -> Result<RLayer, String
     }
 }
 
+// ---- header-only slice types (separate implementations of the same accessors) ----------------------------
+pub fn eth2_header_layer(base: &[u8], e: &Ethernet2HeaderSlice) -> Result<RLayer, String> {
+    let mut l = lay(RK::Eth2, base, e.slice(), None)?;
+    l.fields = vec![("dst", u48(e.destination())), ("src", u48(e.source())), ("ether_type", e.ether_type().0 as u128)];
+    Ok(l)
+}
+pub fn sll_header_layer(base: &[u8], s: &LinuxSllHeaderSlice) -> Result<RLayer, String> {
+    let mut l = lay(RK::Sll, base, s.slice(), None)?;
+    l.fields = vec![
+        ("packet_type", u16::from(s.packet_type()) as u128),
+        ("arphrd", s.arp_hardware_type().0 as u128),
+        ("addr_len", s.sender_address_valid_length() as u128),
+        ("addr", u64::from_be_bytes(s.sender_address_full()) as u128),
+        ("protocol", u16::from(s.protocol_type()) as u128),
+    ];
+    let (o, n) = rel(base, s.sender_address())?;
+    l.ranges.push(("addr_valid", o, n));
+    Ok(l)
+}
+pub fn vlan_header_layer(base: &[u8], v: &SingleVlanHeaderSlice) -> Result<RLayer, String> {
+    let mut l = lay(RK::Vlan, base, v.slice(), None)?;
+    l.fields = vec![("pcp", v.priority_code_point().value() as u128), ("dei", v.drop_eligible_indicator() as u128), ("vid", v.vlan_identifier().value() as u128), ("ether_type", v.ether_type().0 as u128)];
+    Ok(l)
+}
+pub fn macsec_header_layer(base: &[u8], h: &MacsecHeaderSlice) -> Result<RLayer, String> {
+    let mut l = lay(RK::Macsec, base, h.slice(), None)?;
+    l.fields = macsec_fields(h);
+    Ok(l)
+}
+pub fn udp_header_layer(base: &[u8], u: &UdpHeaderSlice) -> Result<RLayer, String> {
+    let mut l = lay(RK::Udp, base, u.slice(), None)?;
+    l.fields = vec![("sport", u.source_port() as u128), ("dport", u.destination_port() as u128), ("length", u.length() as u128), ("checksum", u.checksum() as u128)];
+    Ok(l)
+}
+pub fn tcp_header_layer(base: &[u8], t: &TcpHeaderSlice) -> Result<RLayer, String> {
+    let mut l = lay(RK::Tcp, base, t.slice(), None)?;
+    l.fields = vec![
+        ("sport", t.source_port() as u128),
+        ("dport", t.destination_port() as u128),
+        ("seq", t.sequence_number() as u128),
+        ("ack_nr", t.acknowledgment_number() as u128),
+        ("data_offset", t.data_offset() as u128),
+        ("ns", t.ns() as u128),
+        ("cwr", t.cwr() as u128),
+        ("ece", t.ece() as u128),
+        ("urg", t.urg() as u128),
+        ("ack", t.ack() as u128),
+        ("psh", t.psh() as u128),
+        ("rst", t.rst() as u128),
+        ("syn", t.syn() as u128),
+        ("fin", t.fin() as u128),
+        ("window", t.window_size() as u128),
+        ("checksum", t.checksum() as u128),
+        ("urgent", t.urgent_pointer() as u128),
+    ];
+    rng(&mut l, "options", base, t.options())?;
+    Ok(l)
+}
+pub fn ipv4_header_layer(base: &[u8], h: &Ipv4HeaderSlice) -> Result<RLayer, String> {
+    let mut l = ipv4_hdr_layer(base, h, &[])?;
+    l.pay = NOPAY;
+    Ok(l)
+}
+pub fn ipv6_header_layer(base: &[u8], h: &Ipv6HeaderSlice) -> Result<RLayer, String> {
+    let mut l = ipv6_hdr_layer(base, h, &[])?;
+    l.pay = NOPAY;
+    Ok(l)
+}
+
 pub fn sliced_layers(base: &[u8], p: &SlicedPacket) -> Result<Vec<RLayer>, String> {
     let mut out = vec![];
     match &p.link {
